@@ -112,6 +112,15 @@ theorem C10_results_pass_through_utils_call :
 theorem C10_a_panicking_closure_is_an_error_not_a_dead_link :
     Skeleton.current.ucRecovers = true ∧ Skeleton.current.ucNonErrorPanicMapped = true ∧ Skeleton.current.panicSitesCanonical = true ∧ Skeleton.current.clCallViaUtilsCall = true := by decide
 
+/-- The wire model answers EVERY handler outcome — whatever the error is, in particular errors that wrap sentinels the
+    library gives a meaning to elsewhere (`context.Canceled`, `io.EOF`, `utils.ErrClosed`): the message travels. That is
+    the code's responder only if there is no way out of it that neither writes the response nor ends the link: every
+    `return` in the goroutine that runs the handler directly follows a `setErr(…)` (checked against the regenerated
+    skeleton). A responder that leaves silently for some error values turns the handler's message into the caller's
+    own deadline. -/
+theorem C10_every_handler_outcome_is_answered :
+    Skeleton.current.respEveryReturnReports = true ∧ Skeleton.current.errBranchesHandled = true := by decide
+
 end Panrpc.Wire
 
 #print axioms Panrpc.Wire.C10_message_exact
@@ -123,3 +132,4 @@ end Panrpc.Wire
 #print axioms Panrpc.Wire.C10_closure_nil_error_stays_nil
 #print axioms Panrpc.Wire.C10_results_pass_through_utils_call
 #print axioms Panrpc.Wire.C10_a_panicking_closure_is_an_error_not_a_dead_link
+#print axioms Panrpc.Wire.C10_every_handler_outcome_is_answered
